@@ -309,8 +309,14 @@ pub struct Shared {
 pub(super) const SIDE_NAME: [&str; 2] = ["client", "server"];
 
 impl Shared {
-    fn ev(&self, s: String) {
-        self.obs.borrow_mut().log.ev(s);
+    /// Let one round (own executor) resp. one fixture tick pass.
+    async fn yield_round(&self) {
+        if self.hosts.is_some() {
+            next_round().await
+        } else {
+            // a self-waking task would keep the paused tokio clock from ever advancing
+            tokio::time::sleep(std::time::Duration::from_millis(1)).await
+        }
     }
 
     /// (recv_q, send_q) of the connection socket of `side`, from the public netstat snapshot.
@@ -576,7 +582,7 @@ pub(super) async fn writer(sh: Rc<Shared>, side: usize, mut w: OwnedWriteHalf) {
                 match r {
                     Err(e) if e.kind() == io::ErrorKind::WouldBlock => {
                         sh.obs.borrow_mut().log.tag("wouldblock");
-                        next_round().await;
+                        sh.yield_round().await;
                         continue;
                     }
                     r => r,
@@ -600,7 +606,7 @@ pub(super) async fn writer(sh: Rc<Shared>, side: usize, mut w: OwnedWriteHalf) {
                     }
                     if n == 0 {
                         // Ok(0) for a non-empty buffer: reported by check_write; do not spin
-                        next_round().await;
+                        sh.yield_round().await;
                     }
                 }
                 Err(e) => {
